@@ -146,6 +146,8 @@ def check_identity_dedup(ctx: CheckContext, p: Program, r: Resolver, funcs: List
                 cands.append(("dict comprehension keeping one record per key", nd.key, nd))
             elif isinstance(nd, ast.Assign) and len(nd.targets) == 1 and isinstance(nd.targets[0], ast.Subscript) and t.is_rec(nd.value):
                 cands.append((f"store `{ast.unparse(nd.targets[0])} = {ast.unparse(nd.value)}` keeping one record per key", nd.targets[0].slice, nd))
+            elif isinstance(nd, ast.Call) and isinstance(nd.func, ast.Attribute) and nd.func.attr == "setdefault" and len(nd.args) == 2 and t.is_rec(nd.args[1]):
+                cands.append((f"`{ast.unparse(nd)[:60]}` keeping the first record per key", nd.args[0], nd))
             for kind, key, node in cands:
                 recs = t.rec | (_comp_targets(node) if isinstance(node, ast.DictComp) else set())
                 k = _resolve_key(f, key)
